@@ -201,3 +201,105 @@ func ZZ_H13f_DelayFunc() {
 		zzvrt.Assert(got == dv, "delay: the delay function's value when it returns one")
 	}
 }
+
+// H13i: the whole getDelay of a policy configured through the public builder (including builder calls that
+// replace an earlier delay configuration), combined with jitter and a max duration: the scheduled delay is
+// non-negative, never extends past the remaining max duration, and — when the max duration does not cut it — lies
+// within the configured envelope shifted by at most the jitter. Two consecutive retries for backoff configurations.
+func ZZ_H13i_BuilderEnvelope() {
+	base := zzMag("delay")
+	b := Builder[int]()
+	kind := zzvrt.Choose("delay-kind", 6)
+	var lo, hi [2]time.Duration // un-jittered envelope of the first and the second scheduled delay
+	random := false
+	switch kind {
+	case 0:
+		b.WithDelay(base)
+		lo, hi = [2]time.Duration{base, base}, [2]time.Duration{base, base}
+	case 1:
+		b.WithBackoff(base, base*8)
+		lo, hi = [2]time.Duration{base, base * 2}, [2]time.Duration{base, base * 2}
+	case 2:
+		b.WithRandomDelay(base, base*2)
+		lo, hi = [2]time.Duration{base, base}, [2]time.Duration{base * 2, base * 2}
+		random = true
+	case 3: // a random delay configured after a backoff replaces it
+		b.WithBackoff(base/2+1, base).WithRandomDelay(base*2, base*4)
+		lo, hi = [2]time.Duration{base * 2, base * 2}, [2]time.Duration{base * 4, base * 4}
+		random = true
+	case 4: // a backoff configured after a random delay replaces it
+		b.WithRandomDelay(base, base*2).WithBackoff(base*4, base*16)
+		lo, hi = [2]time.Duration{base * 4, base * 8}, [2]time.Duration{base * 4, base * 8}
+	case 5: // delay function value, falling back to the fixed delay
+		dv := zzvrt.Duration("delayFuncValue")
+		zzvrt.Assume(dv >= -1)
+		zzvrt.Assume(dv < 1<<40)
+		b.WithDelay(base).WithDelayFunc(func(exec failsafe.ExecutionAttempt[int]) time.Duration { return dv })
+		if dv == -1 {
+			lo, hi = [2]time.Duration{base, base}, [2]time.Duration{base, base}
+		} else {
+			lo, hi = [2]time.Duration{dv, dv}, [2]time.Duration{dv, dv}
+		}
+		random = true // symbolic delay: only the duration jitter is decidable
+	}
+	J := time.Duration(0)
+	jf := false
+	nj := 3
+	if random {
+		nj = 2
+	}
+	switch zzvrt.Choose("jitter-kind", nj) {
+	case 1:
+		J = base / 4
+		b.WithJitter(J)
+	case 2:
+		jf = true
+		b.WithJitterFactor(0.25)
+	}
+	md := time.Duration(0)
+	if zzvrt.Choose("max-duration", 2) == 1 {
+		md = zzvrt.Duration("maxDuration")
+		zzvrt.Assume(md >= 1)
+		zzvrt.Assume(md < 1<<47)
+		b.WithMaxDuration(md)
+	}
+	e := b.Build().ToExecutor(0).(*executor[int])
+	rounds := 1
+	if kind == 1 || kind == 4 {
+		rounds = 2 // backoff: the second delay differs from the first
+	}
+	for k := 0; k < rounds; k++ {
+		elapsed := zzvrt.Duration("elapsed")
+		zzvrt.Assume(elapsed >= 0)
+		zzvrt.Assume(elapsed < 1<<47)
+		got := e.getDelay(&zzExec{retries: k, elapsed: elapsed})
+		zzvrt.Observe("got", got)
+		zzvrt.Assert(got >= 0, "delay: non-negative")
+		jl, jh := J, J
+		if jf {
+			jl = hi[k]/4 + hi[k]>>22 + 1
+			jh = jl
+		}
+		if k == 1 { // the backoff product is computed in float32: 2^-22 relative (stated tolerance)
+			jl += hi[k]>>22 + 1
+			jh += hi[k]>>22 + 1
+		}
+		if md != 0 {
+			if elapsed <= md {
+				zzvrt.Assert(got <= md-elapsed, "delay: never extends past the remaining max duration")
+			} else {
+				zzvrt.Assert(got == 0, "delay: zero once the max duration has elapsed")
+			}
+			if elapsed <= md {
+				if hi[k]+jh <= md-elapsed { // not cut by the max duration
+					zzvrt.Assert(got >= lo[k]-jl, "delay: within the configured envelope shifted by at most the jitter (low)")
+					zzvrt.Assert(got <= hi[k]+jh, "delay: within the configured envelope shifted by at most the jitter (high)")
+				}
+			}
+		} else {
+			zzvrt.Assert(got >= lo[k]-jl, "delay: within the configured envelope shifted by at most the jitter (low)")
+			zzvrt.Assert(got <= hi[k]+jh, "delay: within the configured envelope shifted by at most the jitter (high)")
+		}
+	}
+	zzvrt.Reach("builder-envelope-done")
+}
